@@ -79,6 +79,11 @@ struct Live {
   bool dead;        // error state reached in a lenient model: only memory safety is checked from here on
   bool fresh_read;  // RText: the current element was converted since the last move (element ends are set by conversion)
   int id;
+  // RKey: keyword string handed out by the last conversion on this iterator. parseConvertElement(), advance() and reset()
+  // of the same iterator put the saved character back (they end its validity); nothing else may touch it — in
+  // particular clone() of this iterator, which restores the character only while it copies the text.
+  const char *held = 0;
+  std::string held_text;
 };
 
 struct Session {
@@ -204,11 +209,14 @@ static void op_value(Ctx &c, Model &M, Live &l) {
     // keyword conversion of the text element; the string is only valid until the next call, so it is copied at once
     uint64_t p = l.pos;
     const char *key = 0;
+    l.held = 0;
     int rc = mpt_value_convert(v, 'k', &key);
     l.fresh_read = true;
     std::string got = rc >= 0 && key ? std::string(key, strnlen(key, 200)) : std::string();
     c.logf("  #%d value() @%llu -> convert('k') = %d, \"%s\"", l.id, (unsigned long long)p, rc, got.c_str());
     if (rc < 0 || !key) { observe_absent(c, M, l, "keyword conversion of the element reports an error"); return; }
+    l.held = key;
+    l.held_text = got;
     observe_present(c, M, l, 0, false);
     auto sk = M.seen_key.find(p);
     if (sk == M.seen_key.end()) M.seen_key[p] = got;
@@ -237,6 +245,7 @@ static void op_value(Ctx &c, Model &M, Live &l) {
 static int op_advance(Ctx &c, Model &M, Live &l) {
   if ((M.reader == RText || M.reader == RKey) && !l.fresh_read && !l.dead) op_value(c, M, l);
   uint64_t p = l.pos;
+  l.held = 0;
   int r = iter_advance(l.it);
   c.logf("  #%d advance() @%llu -> %d", l.id, (unsigned long long)p, r);
   l.fresh_read = false;
@@ -265,6 +274,7 @@ static int op_advance(Ctx &c, Model &M, Live &l) {
   return r;
 }
 static void op_reset(Ctx &c, Model &M, Live &l) {
+  l.held = 0;
   int r = iter_reset(l.it);
   c.logf("  #%d reset() -> %d", l.id, r);
   if (l.dead) return;
@@ -324,12 +334,19 @@ static void drive(Ctx &c, Session &S, Model &M, mpt::metatype *mt, mpt::iterator
         mpt::metatype *m2 = meta_clone(L[li].mt);
         --budget;
         c.logf("  #%d clone() @%llu -> %s", L[li].id, (unsigned long long)L[li].pos, m2 ? "new source" : "NULL");
+        if (L[li].held) {
+          const Live &src = L[li];
+          size_t hl = strnlen(src.held, src.held_text.size() + 1);
+          VP_CHECK(c, hl == src.held_text.size() && !memcmp(src.held, src.held_text.data(), hl), "held-string-changed",
+                   "%s #%d: the keyword \"%s\" handed out by the last conversion reads \"%.*s\" after clone()", M.what.c_str(), src.id, src.held_text.c_str(), (int)std::min<size_t>(hl, 80), src.held);
+          c.label("keys:held-string-checked-after-clone");
+        }
         if (!m2) { c.label("op:clone-refused"); break; }
         S.owned.push_back(m2);
         mpt::iterator *i2 = meta_iterator(m2);
         VP_CHECK(c, i2, "no-iterator", "%s: the clone does not convert to an iterator", M.what.c_str());
         Live nl = L[li];
-        nl.mt = m2; nl.it = i2; nl.id = nextid++; nl.fresh_read = false;
+        nl.mt = m2; nl.it = i2; nl.id = nextid++; nl.fresh_read = false; nl.held = 0;
         if (M.reader == RText || M.reader == RKey) nl.base = nl.pos;
         L.push_back(nl);
         c.label("op:clone");
@@ -889,6 +906,9 @@ static void run_text_keys(Ctx &c) {
   check_created(c, M, mt);
   if (!mt) return;
   S.owned.push_back(mt);
+  // type query of the source itself (no target address), the idiom every conversion function of the library supports
+  int q = meta_convert(mt, 's', 0);
+  c.logf("  convert('s', no target) -> %d", q);
   drive(c, S, M, mt);
 }
 
